@@ -36,8 +36,12 @@ RULE = ("contraction table: exhaustive (36 kind/space cases, distinct and "
         "passed to _contract_operator_string during GroundState.energy / "
         "amplitude derivations; a string is non-trivial if the model returns "
         ">= 1 contribution; wicks inputs: coefficient x tensors x operator "
-        "groups (bare and normal-ordered), indices contracted with tensors or "
-        "free, with/without delta evaluation and block rules; distinct = "
+        "groups (bare and normal-ordered, incl. general indices inside NO and "
+        "equal neighbouring operators), indices contracted with tensors or "
+        "free (incl. free general indices), sums, with/without delta "
+        "evaluation and block rules; regression corpus "
+        "corpus/C01_regressions.json (inputs of the three repaired findings) "
+        "with and without delta evaluation; distinct = "
         "distinct (kind, index-number, space) sequence resp. input text")
 TRUSTED = [
     "translator harness/c01_translate.py (fail-closed ast -> Gallina for "
@@ -53,11 +57,12 @@ ASSUMPTIONS = [
     "orbital assignments map every index into the range of its space "
     "(ADC.Models.Wick.env_ok)",
     "indices carry no spin (the library raises NotImplementedError otherwise)",
-    "a new index created by a general-general contraction occurs only on its "
-    "own delta, so summing it over its range acts on that factor alone "
-    "(checked per result by the harness)",
-    "normal-ordered groups are modelled for occupied/virtual indices only; "
-    "their expansion is done by sympy and validated numerically",
+    "the new generic registry index created by a general-general contraction "
+    "occurs only on its own delta, so summing it over its range acts on that "
+    "factor alone (checked per result by the harness)",
+    "normal-ordered groups are modelled in Coq for occupied/virtual indices "
+    "only; groups with general indices are split by sympy "
+    "(_to_adcgen_objects) and validated numerically end to end",
 ]
 
 COQ_HEADER = """From Coq Require Import ZArith NArith QArith List String Bool.
@@ -399,6 +404,25 @@ def rules_from_result(rng, res):
     return r
 
 
+def same_value(model, case, contracted, free, e1, e2, rng, n_assign=4):
+    """do two results for the same input have the same value for some
+    assignments of the free indices (random tensor values)"""
+    from adcgen.indices import Index
+    ictx = adcio.IdxCtx()
+    con = [ictx.conv(x) for x in contracted]
+    free_py = []
+    for x in list(free) + sorted(Mul(*case.tensors).atoms(Index), key=str):
+        px = ictx.conv(x)
+        if px not in con and px not in free_py:
+            free_py.append(px)
+    t1, t2 = adcio.conv_expr(e1, ictx), adcio.conv_expr(e2, ictx)
+    allc = list(itertools.product(*[model.rng(x) for x in free_py]))
+    if len(allc) > n_assign:
+        allc = rng.sample(allc, n_assign)
+    return all(model.tm.eval_expr(t1, dict(zip(free_py, c))) ==
+               model.tm.eval_expr(t2, dict(zip(free_py, c))) for c in allc)
+
+
 def eval_case(model, case, contracted, free, result, ictx, rng, max_assign=6):
     """compare the value of `result` with the determinant-space value of the
     input for assignments of the free indices; returns mismatch or None"""
@@ -430,30 +454,6 @@ def eval_case(model, case, contracted, free, result, ictx, rng, max_assign=6):
     return None
 
 
-DELTA_FREE_KEY = ("C01:delta-eval-free-general-index:"
-                  "wicks(Fd(p)*F(q),simplify_kronecker_deltas=True)")
-OP_POWER_KEY = "C01:operator-power:wicks(Fd(i)*F(p)*F(p)*Fd(q)*F(j))"
-
-
-def has_operator_power(expr):
-    from sympy import Pow
-    from sympy.physics.secondquant import FermionicOperator
-    try:
-        e = expr.doit(wicks=True).expand()
-    except Exception:
-        return False
-    return any(isinstance(x.base, FermionicOperator) for x in e.atoms(Pow))
-
-
-def report_operator_power(ctx, desc, ex):
-    ctx.violation(
-        OP_POWER_KEY,
-        "wicks raises when the same operator occurs twice in a row (sympy "
-        f"stores a_p*a_p as a power; the expectation value is 0): {ex!r}",
-        {"input": desc, "exception": repr(ex),
-         "expectation_value_by_determinant_algebra": 0}, True)
-
-
 def check_wicks(ctx):
     quick = ctx.tier == "quick"
     rng = ctx.rng
@@ -469,7 +469,8 @@ def check_wicks(ctx):
                            [1, 2, 3, 4, 4, 5, 6, 6, 8, 8, 10])
         free_general = (n % 5 == 4)
         case, contracted, free = U.gen_wicks_case(
-            rng, pool, n_ops, label=f"w{n}", free_general=free_general)
+            rng, pool, n_ops, label=f"w{n}", free_general=free_general,
+            no_general=(n % 3 == 1), avoid_power=(n % 7 != 3))
         has_free_gen = any(x.space == "general" for x in free)
         if len(contracted) > (7 if quick else 6):
             continue
@@ -489,9 +490,6 @@ def check_wicks(ctx):
                 results[sd] = res
             except Exception as ex:
                 ctx.obligation(f"wicks runs {desc} {label}", False, repr(ex))
-                if has_operator_power(expr):
-                    report_operator_power(ctx, desc, ex)
-                    continue
                 n_viol += 1
                 if n_viol <= 5:
                     ctx.violation(f"C01:wicks:exception:{desc}",
@@ -519,23 +517,13 @@ def check_wicks(ctx):
                              "result": str(res)[:300]},
                      kind=f"wicks:{label}:ops{n_ops}:" +
                      ("freegen:" if has_free_gen else "") +
+                     ("NOgen:" if any(g[0] and any(
+                         o.args[0].space == "general" for o in g[1])
+                         for g in case.groups) else "") +
                      ("NO:" if any(g[0] for g in case.groups) else "") +
                      ("nonzero" if res != 0 else "zero"))
             ok = ctx.obligation(f"wicks value {desc} {label}", bad is None,
                                 str(bad))
-            if not ok and sd and has_free_gen and False in results and \
-                    eval_case(model, case, contracted, free, results[False],
-                              adcio.IdxCtx(), rng, 64) is None:
-                # the plain result is right, delta evaluation changed it
-                ctx.violation(
-                    DELTA_FREE_KEY,
-                    "simplify_kronecker_deltas=True changes the value when a "
-                    "general index of an operator is free (not on a tensor)",
-                    {"input": desc, "free": [str(x) for x in free],
-                     "plain_result": str(results[False]),
-                     "result_with_delta_evaluation": str(res),
-                     "mismatch": bad}, True)
-                continue
             if not ok:
                 n_viol += 1
                 if n_viol <= 5:
@@ -573,7 +561,8 @@ def check_wicks(ctx):
                 continue
             rule_cases.append(f"rules_keep {coq_rules(rules_d)} "
                               f"{adcio.coq_expr(pts)}")
-            rule_info.append((desc, rules_d, sd, terms, with_rules))
+            rule_info.append((desc, rules_d, sd, terms, with_rules,
+                              (case, contracted, free)))
     # sums of fully contracted products: wicks distributes over Add
     for n in range(12 if quick else 60):
         parts = []
@@ -591,9 +580,6 @@ def check_wicks(ctx):
             try:
                 res = wicks(expr, simplify_kronecker_deltas=sd)
             except Exception as ex:
-                if has_operator_power(expr):
-                    report_operator_power(ctx, desc, ex)
-                    continue
                 ctx.obligation(f"wicks runs {desc}", False, repr(ex))
                 ctx.violation(f"C01:wicks:exception:{desc}",
                               f"wicks raised {ex!r}", {"input": desc}, True)
@@ -624,7 +610,8 @@ def check_wicks(ctx):
                                "determinant_space_value": ref}, True)
     vals, errs = ctx.coq_eval("rules", rule_cases, header=COQ_HEADER,
                               shard=40)
-    for (desc, rules_d, sd, terms, with_rules), v in zip(rule_info, vals):
+    for (desc, rules_d, sd, terms, with_rules, cinfo), v in zip(rule_info,
+                                                                vals):
         if v is None:
             ctx.obligation(f"rules model evaluates {desc}", False)
             continue
@@ -636,6 +623,15 @@ def check_wicks(ctx):
         want = Add(*[t for t, k in zip(terms, keep) if k])
         removed = [str(t) for t, k in zip(terms, keep) if not k]
         same = term_multiset(want) == term_multiset(with_rules)
+        if not same:
+            # the new indices of general-general contractions get different
+            # registry names in the two calls: compare number of terms and
+            # values instead
+            n1 = 0 if want == 0 else len(Add.make_args(expand(want)))
+            n2 = 0 if with_rules == 0 else \
+                len(Add.make_args(expand(with_rules)))
+            same = (n1 == n2) and same_value(model, *cinfo, want, with_rules,
+                                             rng)
         ctx.case(key=("rules", desc, str(rules_d), sd),
                  nontrivial=bool(removed),
                  kind="rules:" + ("removing" if removed else "keeping-all"),
@@ -655,9 +651,6 @@ def check_wicks(ctx):
 
 
 # ---------------------------------------------------------------------------
-NO_GENERAL_KEY = "C01:NO-general-index:wicks(Fd(i)*F(a)*NO(Fd(p)*F(q)))"
-
-
 def check_special(ctx):
     """single operators / NO objects, indices with spin, NO groups with
     general indices"""
@@ -703,95 +696,62 @@ def check_special(ctx):
             ctx.violation(f"C01:spin:{ops}", "indices with spin are not "
                           "rejected by _contraction", {"ops": str(ops),
                                                        "detail": det}, True)
+    check_corpus(ctx)
+
+
+def load_corpus():
+    import json
+    import os
+    path = os.path.join(os.path.dirname(os.path.dirname(os.path.dirname(
+        os.path.abspath(__file__)))), "corpus", "C01_regressions.json")
+    return json.load(open(path))
+
+
+def build_corpus_case(entry):
+    from adcgen.indices import get_symbols
+
+    def ix(name):
+        return get_symbols([name])[0]
+    tensors = [U.NonSymmetricTensor(n, tuple(ix(x) for x in idx))
+               for n, idx in entry["tensors"]]
+    groups = [(bool(is_no), [(Fd if c == "Fd" else F)(ix(x)) for c, x in g])
+              for is_no, g in entry["groups"]]
+    case = U.WicksCase(S.One, tensors, groups, "corpus")
+    return (case, [ix(x) for x in entry["contracted"]],
+            [ix(x) for x in entry["free"]])
+
+
+def check_corpus(ctx):
+    """inputs on which the library violated the property before it was
+    repaired (corpus/C01_regressions.json): every one must now have the value
+    given by determinant algebra, with and without delta evaluation; a
+    regression is reported under the key of the original finding"""
+    wicks = fn("wicks")
     model = U.OrbModel(7)
-    j = pool["occ"][1]
-    # the same operator twice in a row (a_p a_p = 0)
-    case = U.WicksCase(S.One, [], [(False, [Fd(i), F(p), F(p), Fd(q), F(j)])],
-                       "power")
-    ctx.case(key=("operator-power",), kind="special:operator-power",
-             nontrivial=True, sample={"input": case.describe()})
-    try:
-        res = wicks(case.expr())
-        bad = eval_case(model, case, [], [i, p, q, j], res, adcio.IdxCtx(),
-                        ctx.rng, 64)
-        if not ctx.obligation("wicks value with a repeated operator",
-                              bad is None, str(bad)):
-            ctx.violation("C01:operator-power:value", "wrong value for a "
-                          "product containing a_p a_p",
-                          {"input": case.describe(), "result": str(res),
-                           "mismatch": bad}, True)
-    except Exception as ex:
-        ctx.obligation("wicks evaluates a product with a repeated operator",
-                       False, repr(ex))
-        report_operator_power(ctx, case.describe(), ex)
-    # free general operator indices with delta evaluation
-    case = U.WicksCase(S.One, [], [(False, [Fd(p), F(q)])], "freegen")
-    ctx.case(key=("delta-free-general",), kind="special:delta-free-general",
-             nontrivial=True, sample={"input": case.describe()})
-    r0 = wicks(case.expr())
-    r1 = wicks(case.expr(), simplify_kronecker_deltas=True)
-    b0 = eval_case(model, case, [], [p, q], r0, adcio.IdxCtx(), ctx.rng, 64)
-    b1 = eval_case(model, case, [], [p, q], r1, adcio.IdxCtx(), ctx.rng, 64)
-    ctx.obligation("wicks(Fd(p)*F(q)) value", b0 is None, str(b0))
-    if b0 is not None:
-        ctx.violation("C01:wicks:value:plain:Fd(p)*F(q)", "wrong value",
-                      {"result": str(r0), "mismatch": b0}, True)
-    if not ctx.obligation("wicks(Fd(p)*F(q), deltas) value", b1 is None,
-                          str(b1)):
-        ctx.violation(DELTA_FREE_KEY,
-                      "simplify_kronecker_deltas=True changes the value when "
-                      "a general index of an operator is free",
-                      {"input": case.describe(), "plain_result": str(r0),
-                       "result_with_delta_evaluation": str(r1),
-                       "mismatch": b1}, True)
-    # normal-ordered group with general indices: the property covers it
-    f1 = U.NonSymmetricTensor("x", (p, q))
-    inputs = [
-        ("Fd(i)*F(a)*NO(Fd(p)*F(q))",
-         U.WicksCase(S.One, [], [(False, [Fd(i), F(a)]),
-                                 (True, [Fd(p), F(q)])], "no-gen"), [],
-         [i, a, p, q]),
-        ("x_pq*Fd(i)*F(a)*NO(Fd(p)*F(q))",
-         U.WicksCase(S.One, [f1], [(False, [Fd(i), F(a)]),
-                                   (True, [Fd(p), F(q)])], "no-gen-t"),
-         [p, q], [i, a]),
-    ]
-    for name, case, contracted, free in inputs:
-        ctx.case(key=("no-general", name), kind="NO:general-index",
-                 nontrivial=True, sample={"input": name})
-        try:
-            res = wicks(case.expr())
-        except Exception as ex:
-            ctx.obligation(f"wicks({name}) evaluates", False, repr(ex))
-            ictx = adcio.IdxCtx()
-            cterm = adcio.conv_term(Mul(case.coef, *case.tensors), ictx)
-            groups = [(n_, [(isinstance(o, Fd), ictx.conv(o.args[0]))
-                            for o in g]) for n_, g in case.groups]
-            # the expectation value exists and is not identically zero
-            vals = {}
-            fr = [ictx.conv(x) for x in free]
-            for combo in itertools.product(*[model.rng(x) for x in fr]):
-                v = U.reference_value(model, cterm, groups,
-                                      dict(zip(fr, combo)),
-                                      [ictx.conv(x) for x in contracted])
-                if v:
-                    vals[str(combo)] = v
-            ctx.violation(
-                NO_GENERAL_KEY,
-                "wicks raises for a normal-ordered group containing general "
-                f"indices: {ex!r}",
-                {"input": name, "exception": repr(ex),
-                 "expectation_value_by_determinant_algebra (free index "
-                 "assignment -> value, zeros omitted)": vals}, True)
-            continue
-        ictx = adcio.IdxCtx()
-        bad = eval_case(model, case, contracted, free, res, ictx, ctx.rng, 64)
-        if not ctx.obligation(f"wicks({name}) value", bad is None, str(bad)):
-            ctx.violation(f"C01:NO-general-index:value:{name}",
-                          "wrong value for a normal-ordered group with "
-                          "general indices", {"input": name,
-                                              "result": str(res),
-                                              "mismatch": bad}, True)
+    for n, entry in enumerate(load_corpus()):
+        case, contracted, free = build_corpus_case(entry)
+        desc = case.describe()
+        for sd in entry["deltas"]:
+            ctx.case(key=("corpus", n, sd), kind="corpus:" +
+                     entry["key"].split(":")[1], nontrivial=True,
+                     sample={"input": desc, "deltas": sd,
+                             "note": entry["note"]})
+            try:
+                res = wicks(case.expr(), simplify_kronecker_deltas=sd)
+                bad = eval_case(model, case, contracted, free, res,
+                                adcio.IdxCtx(), ctx.rng, 256)
+                detail = {"input": desc, "simplify_kronecker_deltas": sd,
+                          "result": str(res), "mismatch": bad,
+                          "note": entry["note"]}
+            except Exception as ex:
+                bad = repr(ex)
+                detail = {"input": desc, "simplify_kronecker_deltas": sd,
+                          "exception": repr(ex), "note": entry["note"]}
+            if not ctx.obligation(f"regression corpus {n} {desc} deltas={sd}",
+                                  bad is None, str(bad)):
+                ctx.violation(entry["key"],
+                              "a repaired defect is back: " + entry["note"],
+                              detail, True)
 
 
 def perm_parity(src, dst):
@@ -872,7 +832,7 @@ def run(ctx):
 
 def replay(ctx, rep):
     """re-execute a recorded violation: operator strings are rebuilt from the
-    key, the fixed inputs of the known findings are re-run; everything else
+    key, the regression corpus is re-run for the repaired findings; all else
     re-runs the whole check with the recorded seed"""
     import ast
     import json
@@ -905,8 +865,9 @@ def replay(ctx, rep):
         return 0 if (got == want and pf == v.startswith("(true")
                      and bad is None) else 1
     before = len(ctx.violations)
-    if key in (NO_GENERAL_KEY, OP_POWER_KEY, DELTA_FREE_KEY) or \
-            key.startswith("C01:special") or key.startswith("C01:spin"):
+    if key.startswith(("C01:NO-general-index", "C01:operator-power",
+                       "C01:delta-eval-free-general-index",
+                       "C01:special", "C01:spin")):
         check_special(ctx)
     elif key.startswith("C01:table"):
         check_table(ctx)
